@@ -559,11 +559,56 @@ func runC12(c *Ctx) {
 				}
 			}
 		}
+		// append onto a slice that lives in the caller's configuration (or in the Client,
+		// which shares Options.Settings with every connection dialed from the same options)
+		// writes into the shared backing array whenever it has spare capacity
+		nApp := 0
+		for _, fn := range p.Funcs() {
+			if pkgOf(fn) == nil || (pkgOf(fn).Path() != core.PkgCh && pkgOf(fn).Path() != core.PkgPool) {
+				continue
+			}
+			for _, call := range core.Calls(fn) {
+				bi, ok := call.Common().Value.(*ssa.Builtin)
+				if !ok || bi.Name() != "append" || len(call.Common().Args) == 0 {
+					continue
+				}
+				nApp++
+				base := call.Common().Args[0]
+				ld, ok := base.(*ssa.UnOp)
+				if !ok || ld.Op != token.MUL {
+					continue
+				}
+				fa, ok := ld.X.(*ssa.FieldAddr)
+				if !ok || !(isCfgStruct(fa.X.Type()) || core.IsNamed(fa.X.Type(), core.PkgCh, "Client")) {
+					continue
+				}
+				// storing the result back into the same field is the owner growing its own slice
+				v, _ := call.(ssa.Value)
+				sameField := false
+				if v != nil && v.Referrers() != nil {
+					for _, r := range *v.Referrers() {
+						if st, ok := r.(*ssa.Store); ok {
+							if fa2, ok := st.Addr.(*ssa.FieldAddr); ok && fa2.Field == fa.Field && fa2.X.Type() == fa.X.Type() {
+								sameField = true
+							}
+						}
+					}
+				}
+				if sameField {
+					continue
+				}
+				bad = true
+				c.R.Bad(rule, core.CallKey(fn, call), cfg, p.Pos(call.Pos()), "append onto "+core.FieldOrigin(ld, 0)+" whose result goes elsewhere: when that slice has spare capacity the new elements are written into its backing array, which is shared by every connection created from the same options (concurrent queries race, and see each other's settings)")
+			}
+		}
+		c.R.Count("append sites in ch+chpool", nApp)
 		if !bad {
-			c.R.Ok(rule, "ch+chpool", cfg, "", sprintf("%d field/element stores, none through a pointer taken from Options / Query", n))
+			c.R.Ok(rule, "ch+chpool", cfg, "", sprintf("%d field/element stores, none through a pointer taken from Options / Query; no append onto a shared configuration slice", n))
 		}
 		c.R.Floor(rule, cfg, n, 40)
 	}()
+
+	ruleSlab(c, p, "C12.slab")
 
 	// ---- C12.globals
 	rule = "C12.globals"
